@@ -152,6 +152,8 @@ def build(case: dict, opts=None, poison: bool = False):
 
 def run_case(case: dict):
     """-> ('raised', None) | ('ok', None) | ('violation', (kind, msg))."""
+    if case.get("sink_reuse"):
+        return run_sink_reuse(case)
     arity = 3 if case["cls"] == "triple" else 4
     flat = [s for g in input_for(case["input"], arity) for s in g]
     expect = T.norm_seq(flat)
@@ -226,6 +228,39 @@ def run_case(case: dict):
     return "ok", None
 
 
+def run_sink_reuse(case: dict):
+    """One GenericStatementSink object through its own serialize()/parse() methods several
+    times, with other content each time: what is written last must be what it holds last."""
+    from pyjelly.integrations.generic import generic_sink as gs  # noqa: PLC0415
+
+    first = T3 if case["first"] == "triples" else T4
+    second = T4 if case["second"] == "quads" else T3
+    sink = gs.GenericStatementSink()
+    for st in first:
+        sink.add(T.st_to_generic(st))
+    sink.serialize(io.BytesIO())
+    src = io.BytesIO()
+    DR.g_sink(second).serialize(src)
+    src.seek(0)
+    try:
+        sink.parse(src)
+        out = io.BytesIO()
+        sink.serialize(out)
+    except Exception as e:  # noqa: BLE001
+        return "raised", type(e).__name__
+    try:
+        _, per = jspec.decode_frames(jwire.read_delimited(out.getvalue()))
+    except (jwire.WireError, jspec.SpecViolation) as e:
+        return "violation", ("invalid-output", f"sink re-used: output is not a valid stream: {e}")
+    got = [T.norm_st(s) for s in jspec.statements(per)]
+    if got != T.norm_seq(second):
+        return "violation", ("statements-missing",
+                             f"a sink that held {case['first']} was re-loaded with "
+                             f"{len(second)} {case['second']} through parse() and serialised "
+                             f"again: the output holds {got[:3]}…")
+    return "ok", None
+
+
 def all_points(frame_sizes) -> list:
     pts = []
     for api, entries in (("generic", G_ENTRIES), ("rdflib", R_ENTRIES)):
@@ -280,6 +315,14 @@ def shard(job) -> dict:
     frame_sizes, lo, hi = job
     DR.ensure_rdflib_plugin()
     acc = pool.Acc()
+    if lo == 0:
+        for first, second in (("triples", "quads"), ("quads", "triples"), ("triples", "triples"),
+                              ("quads", "quads")):
+            case = {"sink_reuse": True, "first": first, "second": second}
+            acc.counters["sink_reuse_cases"] += 1
+            outcome, info = run_case(case)
+            if outcome == "violation":
+                acc.violation({"fail": info[0], "sink_reuse": True}, f"{info[1]}: {case}", case)
     for api, entry, cls, lt, dl, fs, flow, inp, reuse in all_points(frame_sizes)[lo::hi]:
         case = {"api": api, "entry": entry, "cls": cls, "logical": lt, "delimited": dl,
                 "frame_size": fs, "flow": flow, "input": inp, "reuse": reuse is True,
